@@ -261,3 +261,193 @@ func runC14Stats(c *kit.Ctx, k *keyer, t *c14Tables, put *types.Func, W map[stri
 		}
 	}
 }
+
+// runC14LostUpdate (R14.8): an out-of-band writer (outside the codec package)
+// whose new value EXTENDS the previous one (the encoded value is built with
+// append) performs a read-modify-write of the resume record. It is atomic only
+// if the value it extends is decoded from a Get of the same key on the same
+// bucket inside the transaction callback that Puts it; computing it before the
+// transaction (from a cached copy, or in an earlier transaction) lets two
+// concurrent writers overwrite each other: the record and the in-memory list
+// diverge and a tracker added through the API is gone after a restart.
+func runC14LostUpdate(c *kit.Ctx, k *keyer, t *c14Tables, get *types.Func, oobWriters map[string][]c14Row) {
+	// the cells / values an append chain starts from
+	var bases func(v ssa.Value, d int, cells map[ssa.Value]bool) bool
+	bases = func(v ssa.Value, d int, cells map[ssa.Value]bool) bool {
+		if v == nil || d > 8 {
+			return false
+		}
+		v = c14Trace(v)
+		switch x := v.(type) {
+		case *ssa.MakeInterface:
+			return bases(x.X, d+1, cells)
+		case *ssa.Call:
+			if c14FullName(&x.Call) == "builtin.append" {
+				// the extended value: what the chain of appends starts from
+				b := x.Call.Args[0] // not traced: a load of the extended cell must stay a load
+				if inner, ok := b.(*ssa.Call); ok && c14FullName(&inner.Call) == "builtin.append" {
+					bases(inner, d+1, cells)
+					// append(append(make(..), old...), new): `old` is the extended value
+					if len(inner.Call.Args) == 2 {
+						cells[c14BaseOf(inner.Call.Args[1])] = true
+					}
+				} else {
+					cells[c14BaseOf(b)] = true
+				}
+				return true
+			}
+		case *ssa.Phi:
+			any := false
+			for _, e := range x.Edges {
+				if bases(e, d+1, cells) {
+					any = true
+				}
+			}
+			return any
+		case *ssa.UnOp:
+			if a, ok := c14Cell(x.X).(*ssa.Alloc); ok && x.Op.String() == "*" {
+				any := false
+				for _, st := range c14CellStores(a) {
+					if bases(st.Val, d+1, cells) {
+						any = true
+					}
+				}
+				return any
+			}
+		}
+		return false
+	}
+	var keys []string
+	for key := range oobWriters {
+		keys = append(keys, key)
+	}
+	sort.Strings(keys)
+	n, puts := 0, 0
+	for _, key := range keys {
+		for _, row := range oobWriters[key] {
+			puts++
+			cells := map[ssa.Value]bool{}
+			if !bases(row.Src, 0, cells) {
+				continue
+			}
+			n++
+			okey := k.key(c14RootFn(row.Fn), "read-modify-write of "+key)
+			putCall := row.Ins.(ssa.CallInstruction).Common()
+			bucket := c14Trace(argOf(putCall, 0))
+			// a Get of the same key on the same bucket, in the Put's function, before the Put
+			var rd *ssa.Call
+			kit.Instrs(row.Fn, func(ins ssa.Instruction) {
+				call, ok := ins.(*ssa.Call)
+				if !ok || kit.CalleeObj(&call.Call) != get || c14Trace(argOf(&call.Call, 0)) != bucket {
+					return
+				}
+				if s, _, ok := t.keyOf(argOf(&call.Call, 1)); ok && s == key && kit.Dominates(call, row.Ins) {
+					rd = call
+				}
+			})
+			if rd == nil {
+				c.Bad("R14.8", okey, posOf(row.Ins), "%s stores an extension (append) of the value of key %q, but the transaction callback that Puts it does not Get that key from the same bucket first: the extended value is computed outside the transaction (from a cached copy or an earlier read), so two concurrent calls each extend the same old value and the later Put silently drops the other's addition (lost update): the resume record and the in-memory list diverge and the addition is gone after a restart", c14RootFn(row.Fn).Name(), key)
+				continue
+			}
+			// the extended value is what was decoded from that Get
+			decoded := false
+			kit.Instrs(row.Fn, func(ins ssa.Instruction) {
+				call, ok := ins.(*ssa.Call)
+				if !ok || c14FullName(&call.Call) != "encoding/json.Unmarshal" || c14Trace(call.Call.Args[0]) != ssa.Value(rd) {
+					return
+				}
+				dst := call.Call.Args[1]
+				if mi, ok := dst.(*ssa.MakeInterface); ok {
+					dst = mi.X
+				}
+				if cells[c14Cell(dst)] {
+					decoded = true
+				}
+			})
+			c.Check(decoded, "R14.8", okey, posOf(row.Ins),
+				"the extended value is decoded from a Get of the same key on the same bucket inside the transaction callback that Puts it",
+				"the transaction callback Gets key \""+key+"\" but the value it extends and Puts is not the one decoded from that Get: lost update between concurrent writers")
+		}
+	}
+	c.Floor("R14.8", "out-of-band Put sites outside the codec package", puts, 4)
+	c.Floor("R14.8", "append-style (read-modify-write) out-of-band writers", n, 1)
+}
+
+// c14BaseOf: the cell a value is loaded from (through closures), or the value.
+func c14BaseOf(v ssa.Value) ssa.Value {
+	if u, ok := v.(*ssa.UnOp); ok && u.Op.String() == "*" {
+		return c14Cell(u.X)
+	}
+	return c14Trace(v)
+}
+
+// rulePortStable (R14.9): the port a torrent owns is the one taken from the
+// pool at add time (constructor parameter: getPort / spec.Port). The only
+// other assignment re-reads it from the listener; that is the identity only if
+// every listen of that function binds exactly t.port. A fallback listen on
+// another port (port 0) makes t.port an OS-chosen port while availablePorts
+// and the resume record hold the assigned one: the assigned port leaks on
+// remove, a foreign port enters the pool, and the port changes over a restart.
+func (e *c14Env) rulePortStable() {
+	c, k := e.c, e.k
+	fPort := c.Field("torrent", "torrent", "port")
+	newTorrent := c.Func("torrent", "newTorrent")
+	listenTCP := c.FuncObj("net", "ListenTCP")
+	listen := c.FuncObj("net", "Listen")
+	fAddrPort := c.Field("net", "TCPAddr", "Port")
+	n := 0
+	for _, st := range fieldStores(c, fPort) {
+		n++
+		key := k.key(st.Fn, "store torrent.port")
+		if st.Fn == newTorrent {
+			_, isParam := st.Val.(*ssa.Parameter)
+			c.Check(isParam, "R14.9", key, posOf(st.Store), "constructor stores its port parameter (getPort / spec.Port at the call sites, R14.1)", "constructor stores something else than its port parameter")
+			continue
+		}
+		if !kit.Canon(st.Val).Mentions(func(x *kit.Expr) bool { return x.Kind == "call" && x.Name == "Addr" }) {
+			c.Bad("R14.9", key, posOf(st.Store), "torrent.port is reassigned to %s outside the constructor: the pool and the resume record keep the port taken at add time", kit.Canon(st.Val))
+			continue
+		}
+		listens, bad := 0, ""
+		c.InstrsDeep(st.Fn, 1, false, func(ins ssa.Instruction) {
+			call, ok := ins.(*ssa.Call)
+			if !ok {
+				return
+			}
+			switch kit.CalleeObj(&call.Call) {
+			case listen:
+				listens++
+				bad = "net.Listen(" + kit.Canon(call.Call.Args[1]).String() + ")"
+			case listenTCP:
+				listens++
+				addr, _ := c14Trace(call.Call.Args[1]).(*ssa.Alloc)
+				okPort := false
+				if addr != nil && addr.Referrers() != nil {
+					for _, r := range *addr.Referrers() {
+						fa, ok := r.(*ssa.FieldAddr)
+						if !ok || kit.Canon(fa).Field != fAddrPort || fa.Referrers() == nil {
+							continue
+						}
+						for _, rr := range *fa.Referrers() {
+							if s2, ok := rr.(*ssa.Store); ok && s2.Addr == ssa.Value(fa) {
+								okPort = kit.Canon(s2.Val).IsField(fPort)
+							}
+						}
+					}
+				}
+				if !okPort {
+					bad = "net.ListenTCP(_, " + kit.Canon(call.Call.Args[1]).String() + ") at " + c.Pos(posOf(call))
+				}
+			}
+		})
+		switch {
+		case listens == 0:
+			c.Bad("R14.9", key, posOf(st.Store), "torrent.port is re-read from a listener address but no listen call is found in %s", st.Fn.Name())
+		case bad != "":
+			c.Bad("R14.9", key, posOf(st.Store), "torrent.port is re-read from the listener, and %s does not bind exactly t.port: when that listen succeeds t.port becomes an OS-chosen port while Session.availablePorts and the resume record hold the assigned one (the assigned port is never released, a port outside the range enters the pool on remove, the torrent's port differs after a restart)", bad)
+		default:
+			c.OK("R14.9", key, posOf(st.Store), "re-read from a listener whose every listen call binds Port: t.port (identity)")
+		}
+	}
+	c.Floor("R14.9", "stores of torrent.port", n, 2)
+}
